@@ -32,7 +32,9 @@ def install():
     ap.calculate_net_slaughter_hours_by_size = wh
     orig_feed = ap.AnimalSpecies.feed_the_species
 
-    def wf(self, grass_input, feed_input, is_ruminant=False):
+    def wf(self, grass_input, feed_input, *a, **k):
+        # arguments are passed through untouched (a call that leaves the ruminant flag out must reach the function's own default)
+        is_ruminant = k["is_ruminant"] if "is_ruminant" in k else (a[0] if a else False)
         rec = None
         if _state["feed_calls"] is not None:
             rec = {"type": self.animal_type, "rum": bool(is_ruminant), "g0": float(grass_input.kcals), "f0": float(feed_input.kcals),
@@ -41,7 +43,7 @@ def install():
                    # the requirement from the species' own attributes at the time of the call: livestock units x regional factor x
                    # 29000 MJ net energy per livestock unit and year (INRAE 2021), in billion kcal per month, x head count
                    "req_attr": float(self.livestock_unit) * float(self.LSU_factor) * (29000.0 / 12.0 / 4.187 * 1000.0 / 1e9) * float(self.current_population)}
-        out = orig_feed(self, grass_input, feed_input, is_ruminant)
+        out = orig_feed(self, grass_input, feed_input, *a, **k)
         if rec is not None:
             rec.update(g1=float(out[0].kcals), f1=float(out[1].kcals), bal=float(self.NE_balance.kcals), fed=float(self.population_fed))
             _state["feed_calls"].append(rec)
